@@ -322,6 +322,16 @@ def post_merge(run, tool, m, out, a):
 
 
 def post_concat(run, tool, meshes, out):
+    if out.cells.size and (out.cells.min() < 0 or out.cells.max() >= len(out.points)):
+        run.fail("mesh." + tool, "tool=%s clause=connectivity-in-range" % tool,
+                 "%s: the connectivity refers to point %d of %d" % (tool, int(out.cells.max()), len(out.points)))
+        return
+    exp_pts = np.vstack([m.points for m in meshes])
+    if out.points.shape == exp_pts.shape and out.cells.shape[0] == sum(m.ncells for m in meshes):
+        # every cell keeps its corner coordinates (the parts are only renumbered)
+        ref = np.concatenate([m.points[m.cells] for m in meshes], axis=0)
+        run.compare("mesh." + tool, "tool=%s clause=cell-corners" % tool, maxabs(out.points[out.cells] - ref), 0.0,
+                    "%s: a cell of the result has other corner coordinates than in its part" % tool, unit=tool + ":corners")
     vs = [vols(m) for m in meshes]
     if any(v is None for v in vs) or len({m.cell_type for m in meshes}) != 1:
         run.skip("mesh." + tool, "unsupported inputs")
